@@ -244,14 +244,14 @@ class Worker:
             if op.kind in ('digest', 'sign'): return s.call(fns[2], s=sess, data='')
             return s.call(fns[2], s=sess, data='', buf=None)
         return s.call(fns[1], s=sess, data='00', buf=None)
-    def finished(s, S, how, rvname=None):
+    def finished(s, S, how, rvname=None, endfn=None):
         """the operation of session S has finished or failed: it must be gone"""
         op = S['op']; S['op'] = None; S['state'] = 'none'
         r = s.continue_call(op, S['h'])
         step = 'probe-after-' + how
         if r['rvname'] != NOINIT:
-            s.V(r.get('fn', KIND_FNS[op.kind][2] or 'C_FindObjects'), f'{op.m.cls},{op.kind},after-{how}' + (f':{rvname}' if rvname and how == 'failure' else ''), 'operation-still-active:' + r['rvname'],
-                f'after the {op.kind} operation ({op.m.name}) {how} the next continue call returned {r["rvname"]} instead of CKR_OPERATION_NOT_INITIALIZED', mech=op.m.name)
+            s.V(endfn or r['fn'], f'{op.m.cls},{op.kind},{how}' + (f':{rvname}' if rvname and how == 'failure' else ''), 'operation-still-active',
+                f'the {op.kind} operation ({op.m.name}) ended with {endfn} ({how}{": " + rvname if rvname else ""}) but the next {r["fn"]} returned {r["rvname"]} instead of CKR_OPERATION_NOT_INITIALIZED', mech=op.m.name, probe=r['fn'], probe_rv=r['rvname'])
             # get rid of whatever is there
             s.x.call('C_CloseSession', s=S['h']); S['h'] = s.x.call('C_OpenSession', slot=s.slot)['h']
         s.case(op.kind, op.m.cls, step, 'none')
@@ -365,11 +365,11 @@ class Worker:
         if rv == OK:
             op.tin += c['inlen']; op.tout += len(out or b''); op.i += 1
             s.case(op.kind, op.m.cls, step, bufcls, sample=sample)
-            if fn in ENDS: s.part.count('operations_finished'); s.finished(S, 'success')
+            if fn in ENDS: s.part.count('operations_finished'); s.finished(S, 'success', endfn=fn)
             return
         s.part.count('operations_failed'); s.part.count('failed_rv_' + rv)
         s.case(op.kind, op.m.cls, step + '-failing', bufcls, sample=sample)
-        s.finished(S, 'failure', rv)
+        s.finished(S, 'failure', rv, endfn=fn)
     # ---- steps on idle / active sessions
     def idle_step(s, S):
         r = s.rnd; sess = S['h']
@@ -409,7 +409,7 @@ class Worker:
             if other is None: return
             q = s.call(KIND_FNS[other.kind][0], **s.init_kw(other, sess))
             if q['rvname'] != ACTIVE:
-                s.V(KIND_FNS[other.kind][0], f'{other.m.cls},while-{op.kind}-active', 'not-CKR_OPERATION_ACTIVE:' + q['rvname'], f'{KIND_FNS[other.kind][0]} ({other.m.name}) on a session with an active {op.kind} operation ({op.m.name}) returned {q["rvname"]}', active=op.m.name, second=other.m.name)
+                s.V(KIND_FNS[other.kind][0], f'while-{op.kind}-active({op.m.cls})' + (',after-size-query-or-too-small' if op.disturbed else ''), 'not-CKR_OPERATION_ACTIVE:' + q['rvname'], f'{KIND_FNS[other.kind][0]} ({other.m.name}) on a session with an active {op.kind} operation ({op.m.name}) returned {q["rvname"]}', active=op.m.name, second=other.m.name)
                 if q['rv'] == 0: s.x.call('C_CloseSession', s=sess); S['h'] = s.x.call('C_OpenSession', slot=s.slot)['h']; S['op'] = None; S['state'] = 'none'
             s.case(other.kind, other.m.cls, 'second-init:' + op.kind, 'none'); return
         if x < 0.23:
